@@ -104,15 +104,27 @@ def run(ctx):
         for bi, blk in enumerate(s["blocks"]):
             for e in blk["entries"]:
                 key2block[e["key"]] = bi + 1
-        tb = rng.randint(1, nb)
-        gkey = s["blocks"][tb - 1]["entries"][1]["key"]
-        sb = rng.randint(1, nb)
-        skey = s["blocks"][sb - 1]["entries"][0]["key"]
-        for (pathkind, L, target) in (("iterate", ["it_iter 1 r:0", "it_drain 1"], 0),
-                                      ("get", ["it_get 1 r:0 %s" % gkey.hex(), "it_next 1"], tb),
-                                      ("seek", ["it_iter 1 r:0", "it_seek 1 %s" % skey.hex(), "it_drain 1"], sb)):
-            lines += ["r_init 0 %s 1 0" % img] + L + ["it_destroy 1", "r_destroy 0", "---"]
-            plan.append((ji, pathkind, target, key2block))
+
+        def seg_lines(i, kind, target):
+            if kind == "iterate":
+                return ["it_iter %d r:0" % i, "it_drain %d" % i, "it_destroy %d" % i]
+            if kind == "get":
+                gkey = s["blocks"][target - 1]["entries"][1]["key"]
+                return ["it_get %d r:0 %s" % (i, gkey.hex()), "it_next %d" % i, "it_destroy %d" % i]
+            skey = s["blocks"][target - 1]["entries"][0]["key"]
+            return ["it_iter %d r:0" % i, "it_seek %d %s" % (i, skey.hex()), "it_drain %d" % i, "it_destroy %d" % i]
+        runs = [[("iterate", 0)], [("get", rng.randint(1, nb))], [("seek", rng.randint(1, nb))],
+                [("get", nb), ("iterate", 0)],                                   # a later block first, then everything from the start, on one reader
+                [("seek", rng.randint(1, nb)), ("get", rng.randint(1, nb)), ("iterate", 0)]]
+        if label.get("region") == "crc+payload":
+            runs = runs[:1] + runs[3:4]
+        for run_ in runs:
+            L = ["r_init 0 %s 1 0" % img]
+            for si, (kind, target) in enumerate(run_):
+                L += seg_lines(si + 1, kind, target)
+            L += ["r_destroy 0", "---"]
+            lines += L
+            plan.append((ji, run_, key2block))
     recs_by_job = {}
     # split the script at execution boundaries, about 6000 executions per driver run
     execs_l, curx = [], []
@@ -128,17 +140,17 @@ def run(ctx):
         cur = None
         for e in evs:
             if e["e"] == "Reset":
-                cur = {"x": xbase + e["x"], "blocks": [], "closed": False}
+                ji, run_, k2b = plan[xbase + e["x"]]
+                cur = {"x": xbase + e["x"], "segs": [{"kind": k, "target": t, "blocks": []} for (k, t) in run_], "closed": False}
             elif e["e"] == "Next" and e.get("ok"):
-                ji, pathkind, target, k2b = plan[cur["x"]]
-                cur["blocks"].append(k2b.get(bytes.fromhex(e["k"]), 999))
+                ji, run_, k2b = plan[cur["x"]]
+                cur["segs"][e["i"] - 1]["blocks"].append(k2b.get(bytes.fromhex(e["k"]), 999))
             elif e["e"] == "RDestroy":
                 cur["closed"] = True
             elif e["e"] == "Exit":
-                ji, pathkind, target, k2b = plan[cur["x"]]
+                ji, run_, k2b = plan[cur["x"]]
                 ended = "normal" if (e["code"] == 0 and e["sig"] == 0 and cur["closed"]) else "abort"
-                recs_by_job.setdefault(ji, []).append({"e": "ReadRun", "path": pathkind, "target": target, "blocks": cur["blocks"], "ended": ended,
-                                                       "code": e["code"], "sig": e["sig"]})
+                recs_by_job.setdefault(ji, []).append({"e": "ReadRun", "segs": cur["segs"], "ended": ended, "code": e["code"], "sig": e["sig"]})
         xbase += len(execs_l[i:i + 6000])
     recs = []
     for ji, (img, bad, nb, label, s) in enumerate(jobs):
@@ -165,7 +177,7 @@ def run(ctx):
     ctx.assumptions += ["CRC-32C detects all 1-3 bit errors and all bursts up to 32 bits at these block lengths (Detects in Checksum.tla)",
                         "a burst is a run of consecutive bits in byte order, least significant bit first"]
     return core.finish(ctx, LEVEL, cov, rule="images = intact files + one corruption pattern each (all single bits of small regions, sampled pairs, triples, bursts <= 32 bits) in the stored bytes or the checksum field of each data block and of the index block; "
-                       "each image: mtbl_verify + three verifying reader runs (iterate, get, seek)")
+                       "each image: mtbl_verify + verifying reader runs (iterate; get; seek; a later block first and then everything from the start on one reader; seek+get+iterate on one reader)")
 
 
 def replay(ctx, path):
